@@ -30,12 +30,18 @@ package main
 //   F-SQL4 the row filter only knows float32, float64, int32 and int64 columns: a predicate on an
 //          int8/int16/uint8/uint16/uint32/uint64 column is silently ignored (all rows pass).
 //          Trigger: a comparison on a column of one of those types.
+//   F-SQL5 the early "always false" test (StaticPredicate.IsFalse) compares a column's lower and upper
+//          bound as float64 literals, not in the column's precision: on a float32 column
+//          `C >= 0.20000000318 AND C <= 0.2` returns nothing although both literals convert to the
+//          stored float32 0.2. Trigger: a float32 column with a lower bound literal greater than an
+//          upper bound literal as float64 but not after conversion to float32. As-is: empty result.
 // A case is judged: actual == ideal -> held; else, for the triggered findings, the smallest set whose
 // as-is model reproduces the actual result exactly -> known finding(s); anything else -> violation.
 
 import (
 	"fmt"
 	"sort"
+	"strconv"
 	"strings"
 	"time"
 
@@ -70,6 +76,11 @@ func c19stratum(s int, t *sqlTable) string {
 		return "aimSQL2"
 	case 11:
 		return "aimSQL3"
+	case 13:
+		if t.sql5Col() != nil {
+			return "aimSQL5"
+		}
+		return "main"
 	case 15:
 		if len(t.valueCols(false)) > 0 {
 			return "aimSQL4"
@@ -163,6 +174,37 @@ func (t *sqlTable) genAimed(r *gen.R, stratum string, k int) sqlWhere {
 		}
 		rest := t.genWhereMain(r, k-len(cs), map[string]bool{name: true})
 		return insertAt(r, rest, cs...)
+	case "aimSQL5":
+		col := t.sql5Col()
+		data := t.Ref.Cols[col.Name].([]float32)
+		var pos []float32
+		for _, v := range data {
+			if v > 0 {
+				pos = append(pos, v)
+			}
+		}
+		v := float64(pos[r.Intn(len(pos))])
+		// both literals convert to the stored float32 value; as float64 the lower one is the larger
+		lo := valLit(fmtF(v * (1 + 1e-9)))
+		hi := valLit(fmtF(v * (1 - 1e-9)))
+		if r.P(1, 3) {
+			hi = valLit(strconv.FormatFloat(v, 'f', -1, 32))
+			if !strings.Contains(hi.Text, ".") {
+				hi = valLit(hi.Text + ".0")
+			}
+		}
+		cs := []sqlCmp{{Col: col.Name, Op: ">=", A: lo}, {Col: col.Name, Op: "<=", A: hi}}
+		if r.P(1, 4) {
+			cs = []sqlCmp{{Col: col.Name, Op: r.PickS(">", ">="), A: lo}, {Col: col.Name, Op: r.PickS("<", "<="), A: hi}}
+		}
+		if r.Bool() {
+			cs[0], cs[1] = cs[1], cs[0]
+		}
+		if k < 2 {
+			k = 2
+		}
+		rest := t.genWhereMain(r, k-2, map[string]bool{col.Name: true})
+		return insertAt(r, rest, cs...)
 	case "aimSQL4":
 		odd := t.valueCols(false)
 		col := odd[r.Intn(len(odd))]
@@ -190,6 +232,23 @@ func (t *sqlTable) genAimed(r *gen.R, stratum string, k int) sqlWhere {
 		return insertAt(r, rest, cs...)
 	}
 	panic(stratum)
+}
+
+// sql5Col: a float32 column holding a positive value (needed to aim at F-SQL5), or nil.
+func (t *sqlTable) sql5Col() *sqlCol {
+	for i := range t.Cols {
+		if t.Cols[i].TS != "f4" {
+			continue
+		}
+		if data, ok := t.Ref.Cols[t.Cols[i].Name].([]float32); ok {
+			for _, v := range data {
+				if v > 0 && v < 1e6 {
+					return &t.Cols[i]
+				}
+			}
+		}
+	}
+	return nil
 }
 
 // shapeSig: the shape of a statement (column class and operator of each comparison), not its values.
@@ -418,7 +477,7 @@ func init() {
 		ID:    "C19",
 		Level: "exploration",
 		Rule: "case = one generated table (timeframe 1Sec..1D, fixed or variable-length, 2-7 columns of types i4 i8 f4 f8 and, in every second case, i1 i2 u1 u2 u4 u8, 1-60 rows, every fifth table crossing a year boundary) written through the real writer, plus 32 (quick) / 40 (thorough) statements `SELECT * FROM t WHERE c1 AND .. AND ck` (k<=4, `col op literal` with op in < <= > >= = and `col BETWEEN a AND b`, literals on / one step off / between / outside the stored values, Epoch literals as datetime string, epoch seconds and epoch nanoseconds) run through BuildQueryTree/NewExecutableStatement/Materialize and compared with the reference filter over the rows of the unrestricted non-SQL query; " +
-			"3 of 4 statements come from the fragment that avoids every known trigger (checked by the trigger predicates), the others aim at F-SQL1..4; a statement is non-trivial when the table has >=2 rows and either a literal sits on a stored value or the expected result is a non-empty proper subset; distinct = distinct (stratum, record kind, multiset of column-class+operator) shapes plus distinct table shapes",
+			"3 of 4 statements come from the fragment that avoids every known trigger (checked by the trigger predicates), the others aim at F-SQL1..5; a statement is non-trivial when the table has >=2 rows and either a literal sits on a stored value or the expected result is a non-empty proper subset; distinct = distinct (stratum, record kind, multiset of column-class+operator) shapes plus distinct table shapes",
 		Assumptions: []string{
 			"the row time an Epoch predicate is compared with is Epoch*1e9+Nanoseconds for variable-length rows (for fixed-length rows Nanoseconds is 0, where every reading of the property agrees)",
 			"a value literal is converted to the column's Go type (decimal literal -> float64 -> float32 for f4 columns; only integral decimals are used against integer columns; literals stay inside the column type's range and are non-negative because the grammar has no signed literals)",
